@@ -178,7 +178,7 @@ func cmdCheck(args []string) int {
 	}
 	os.RemoveAll(od)
 	os.MkdirAll(od, 0o755)
-	timeout := 10 * time.Second
+	timeout := 15 * time.Second
 	if *tier == "thorough" {
 		timeout = 60 * time.Second
 	}
